@@ -182,4 +182,242 @@ theorem rcp_parse_radioStatusReport (rel : Bool) (t v : Nat) (x y ck : Nat) (h1 
   simp [Rcp.fromBytes, reliableAndServiceB, sl, idx, r, e, le2, le4, ofLe2', ofLe4', bind, Except.bind, pure, Except.pure,
     idOf, svcRCP, show ¬ rcpRadioStatusReport = rcpUnknownService by decide, show ¬ rcpRadioStatusReport = rcpCallRequest by decide, show ¬ rcpRadioStatusReport = rcpCallReply by decide, show ¬ rcpRadioStatusReport = rcpRepeaterBroadcastTransmitStatus by decide, show ¬ rcpRadioStatusReport = rcpBroadcastMessageConfigurationRequest by decide, show ¬ rcpRadioStatusReport = rcpBroadcastMessageConfigurationReply by decide, show ¬ rcpRadioStatusReport = rcpRadioIDAndRadioIPQueryRequest by decide, show ¬ rcpRadioStatusReport = rcpRadioIDAndRadioIPQueryReply by decide, show ¬ rcpRadioStatusReport = rcpBroadcastStatusConfigurationRequest by decide, show ¬ rcpRadioStatusReport = rcpBroadcastStatusConfigurationReply by decide, show ¬ rcpRadioStatusReport = rcpSendTalkerAliasRequest by decide, show ¬ rcpRadioStatusReport = rcpSendTalkerAliasReply by decide, show ¬ rcpRadioStatusReport = rcpZoneAndChannelOperationRequest by decide, show ¬ rcpRadioStatusReport = rcpZoneAndChannelOperationReply by decide, show ¬ rcpRadioStatusReport = rcpStatusChangeNotificationRequest by decide, show ¬ rcpRadioStatusReport = rcpStatusChangeNotificationReply by decide, c, m2]
 
+/-! ### opcodes with a variable-length part -/
+
+/-- `data[5:-2]` of a frame is its payload -/
+theorem sl_payload (a0 a1 a2 a3 a4 ck : Nat) (P : Bytes) :
+    sl (a0 :: a1 :: a2 :: a3 :: a4 :: (P ++ [ck, 3])) 5 ((a0 :: a1 :: a2 :: a3 :: a4 :: (P ++ [ck, 3])).length - 2) = P := by
+  have := sl_mid [a0, a1, a2, a3, a4] P [ck, 3]
+  simp only [List.cons_append, List.nil_append, List.length_cons, List.length_nil] at this
+  have e : (a0 :: a1 :: a2 :: a3 :: a4 :: (P ++ [ck, 3])).length - 2 = 0 + 1 + 1 + 1 + 1 + 1 + P.length := by
+    simp; omega
+  rw [e]; exact this
+
+theorem rcp_parse_unknown (rel : Bool) (o1 o2 : Nat) (raw : Bytes) (x y ck : Nat)
+    (h : enumFold rcpValues rcpMissing (ofLe [o1, o2]) = rcpUnknownService) :
+    Rcp.fromBytes ((svcRCP ||| (if rel then 0x80 else 0)) :: o1 :: o2 :: x :: y :: (raw ++ [ck, 3]))
+      = .ok ⟨rel, .unknown [o1, o2] raw⟩ := by
+  have r := rcp_first rel
+  have s13 : sl ((svcRCP ||| (if rel then 0x80 else 0)) :: o1 :: o2 :: x :: y :: (raw ++ [ck, 3])) 1 3 = [o1, o2] := by
+    simp [sl]
+  have s01 : sl ((svcRCP ||| (if rel then 0x80 else 0)) :: o1 :: o2 :: x :: y :: (raw ++ [ck, 3])) 0 1
+      = [svcRCP ||| (if rel then 0x80 else 0)] := by simp [sl]
+  simp only [Rcp.fromBytes, s01, s13, reliableAndServiceB, r, h, sl_payload, bind, Except.bind, pure, Except.pure,
+    ne_eq, not_true_eq_false, if_false, if_true]
+
+theorem rcp_parse_zoneChanReply (rel : Bool) (raw : Bytes) (x y ck : Nat) :
+    Rcp.fromBytes ((svcRCP ||| (if rel then 0x80 else 0)) :: (rcpZoneAndChannelOperationReply % 256)
+      :: (rcpZoneAndChannelOperationReply / 256 % 256) :: x :: y :: (raw ++ [ck, 3]))
+      = .ok ⟨rel, .zoneChanReply raw⟩ := by
+  have e := rcp_opcode_known (v := rcpZoneAndChannelOperationReply) (by decide)
+  have r := rcp_first rel
+  generalize hD : (svcRCP ||| (if rel then 0x80 else 0)) :: (rcpZoneAndChannelOperationReply % 256)
+      :: (rcpZoneAndChannelOperationReply / 256 % 256) :: x :: y :: (raw ++ [ck, 3]) = D
+  have s13 : sl D 1 3 = [rcpZoneAndChannelOperationReply % 256, rcpZoneAndChannelOperationReply / 256 % 256] := by
+    rw [← hD]; simp [sl]
+  have s01 : sl D 0 1 = [svcRCP ||| (if rel then 0x80 else 0)] := by rw [← hD]; simp [sl]
+  have sp : sl D 5 (D.length - 2) = raw := by rw [← hD]; exact sl_payload ..
+  simp only [Rcp.fromBytes, s01, s13, sp, reliableAndServiceB, r, ofLe2', e, bind, Except.bind, pure, Except.pure,
+    ne_eq, not_true_eq_false, if_false, if_true, show ¬ rcpZoneAndChannelOperationReply = rcpUnknownService by decide, show ¬ rcpZoneAndChannelOperationReply = rcpCallRequest by decide, show ¬ rcpZoneAndChannelOperationReply = rcpCallReply by decide, show ¬ rcpZoneAndChannelOperationReply = rcpRepeaterBroadcastTransmitStatus by decide, show ¬ rcpZoneAndChannelOperationReply = rcpBroadcastMessageConfigurationRequest by decide, show ¬ rcpZoneAndChannelOperationReply = rcpBroadcastMessageConfigurationReply by decide, show ¬ rcpZoneAndChannelOperationReply = rcpRadioIDAndRadioIPQueryRequest by decide, show ¬ rcpZoneAndChannelOperationReply = rcpRadioIDAndRadioIPQueryReply by decide, show ¬ rcpZoneAndChannelOperationReply = rcpBroadcastStatusConfigurationRequest by decide, show ¬ rcpZoneAndChannelOperationReply = rcpBroadcastStatusConfigurationReply by decide, show ¬ rcpZoneAndChannelOperationReply = rcpSendTalkerAliasRequest by decide, show ¬ rcpZoneAndChannelOperationReply = rcpSendTalkerAliasReply by decide, show ¬ rcpZoneAndChannelOperationReply = rcpZoneAndChannelOperationRequest by decide]
+
+theorem rcp_parse_bcastStatusCfgReq (rel : Bool) (n : Nat) (rest : Bytes) (x y ck : Nat) (h : rest.length = 2 * n) :
+    Rcp.fromBytes ((svcRCP ||| (if rel then 0x80 else 0)) :: (rcpBroadcastStatusConfigurationRequest % 256)
+      :: (rcpBroadcastStatusConfigurationRequest / 256 % 256) :: x :: y :: ((n :: rest) ++ [ck, 3]))
+      = .ok ⟨rel, .bcastStatusCfgReq (n :: rest)⟩ := by
+  have e := rcp_opcode_known (v := rcpBroadcastStatusConfigurationRequest) (by decide)
+  have r := rcp_first rel
+  generalize hD : (svcRCP ||| (if rel then 0x80 else 0)) :: (rcpBroadcastStatusConfigurationRequest % 256)
+      :: (rcpBroadcastStatusConfigurationRequest / 256 % 256) :: x :: y :: ((n :: rest) ++ [ck, 3]) = D
+  have s13 : sl D 1 3 = [rcpBroadcastStatusConfigurationRequest % 256, rcpBroadcastStatusConfigurationRequest / 256 % 256] := by
+    rw [← hD]; simp [sl]
+  have s01 : sl D 0 1 = [svcRCP ||| (if rel then 0x80 else 0)] := by rw [← hD]; simp [sl]
+  have i5 : idx D 5 = .ok n := by rw [← hD]; simp [idx, pure, Except.pure]
+  have sp : sl D 5 (5 + 1 + n * 2) = n :: rest := by
+    rw [← hD]
+    have := sl_mid [svcRCP ||| (if rel then 0x80 else 0), rcpBroadcastStatusConfigurationRequest % 256,
+      rcpBroadcastStatusConfigurationRequest / 256 % 256, x, y] (n :: rest) [ck, 3]
+    simp only [List.cons_append, List.nil_append, List.length_cons, List.length_nil] at this
+    have e : 5 + 1 + n * 2 = 0 + 1 + 1 + 1 + 1 + 1 + (rest.length + 1) := by omega
+    rw [e]; exact this
+  simp only [Rcp.fromBytes, s01, s13, sp, i5, reliableAndServiceB, r, ofLe2', e, bind, Except.bind, pure, Except.pure,
+    ne_eq, not_true_eq_false, if_false, if_true, show ¬ rcpBroadcastStatusConfigurationRequest = rcpUnknownService by decide, show ¬ rcpBroadcastStatusConfigurationRequest = rcpCallRequest by decide, show ¬ rcpBroadcastStatusConfigurationRequest = rcpCallReply by decide, show ¬ rcpBroadcastStatusConfigurationRequest = rcpRepeaterBroadcastTransmitStatus by decide, show ¬ rcpBroadcastStatusConfigurationRequest = rcpBroadcastMessageConfigurationRequest by decide, show ¬ rcpBroadcastStatusConfigurationRequest = rcpBroadcastMessageConfigurationReply by decide, show ¬ rcpBroadcastStatusConfigurationRequest = rcpRadioIDAndRadioIPQueryRequest by decide, show ¬ rcpBroadcastStatusConfigurationRequest = rcpRadioIDAndRadioIPQueryReply by decide]
+
+theorem rcp_parse_talkerAliasReq (rel : Bool) (ct s t f : Nat) (a : Bytes) (x y ck : Nat)
+    (h1 : ct ∈ rcpCallTypeValues) (h2 : s < 4294967296) (h3 : t < 4294967296) (h4 : f ∈ talkerAliasFormatValues) :
+    Rcp.fromBytes ((svcRCP ||| (if rel then 0x80 else 0)) :: (rcpSendTalkerAliasRequest % 256)
+      :: (rcpSendTalkerAliasRequest / 256 % 256) :: x :: y :: (([ct] ++ le4 s ++ le4 t ++ [f, a.length] ++ a) ++ [ck, 3]))
+      = .ok ⟨rel, .talkerAliasReq ct s t f a⟩ := by
+  have e := rcp_opcode_known (v := rcpSendTalkerAliasRequest) (by decide)
+  have r := rcp_first rel
+  have c1 := enumOf_mem h1
+  have c4 := enumOf_mem h4
+  have m2 := Nat.mod_eq_of_lt h2
+  have m3 := Nat.mod_eq_of_lt h3
+  have sa : sl ((svcRCP ||| (if rel then 0x80 else 0)) :: (rcpSendTalkerAliasRequest % 256)
+      :: (rcpSendTalkerAliasRequest / 256 % 256) :: x :: y :: ct :: s % 256 :: s / 256 % 256 :: s / 65536 % 256 ::
+        s / 16777216 % 256 :: t % 256 :: t / 256 % 256 :: t / 65536 % 256 :: t / 16777216 % 256 :: f :: a.length ::
+        (a ++ [ck, 3])) 16 (16 + a.length) = a := by
+    have := sl_mid [svcRCP ||| (if rel then 0x80 else 0), rcpSendTalkerAliasRequest % 256,
+      rcpSendTalkerAliasRequest / 256 % 256, x, y, ct, s % 256, s / 256 % 256, s / 65536 % 256,
+        s / 16777216 % 256, t % 256, t / 256 % 256, t / 65536 % 256, t / 16777216 % 256, f, a.length] a [ck, 3]
+    simpa using this
+  simp only [svcRCP] at r sa
+  simp [Rcp.fromBytes, reliableAndServiceB, sl, idx, r, e, le2, le4, ofLe2', ofLe4', bind, Except.bind, pure, Except.pure,
+    idOf, svcRCP, c1, c4, m2, m3, show ¬ rcpSendTalkerAliasRequest = rcpUnknownService by decide, show ¬ rcpSendTalkerAliasRequest = rcpCallRequest by decide, show ¬ rcpSendTalkerAliasRequest = rcpCallReply by decide, show ¬ rcpSendTalkerAliasRequest = rcpRepeaterBroadcastTransmitStatus by decide, show ¬ rcpSendTalkerAliasRequest = rcpBroadcastMessageConfigurationRequest by decide, show ¬ rcpSendTalkerAliasRequest = rcpBroadcastMessageConfigurationReply by decide, show ¬ rcpSendTalkerAliasRequest = rcpRadioIDAndRadioIPQueryRequest by decide, show ¬ rcpSendTalkerAliasRequest = rcpRadioIDAndRadioIPQueryReply by decide, show ¬ rcpSendTalkerAliasRequest = rcpBroadcastStatusConfigurationRequest by decide, show ¬ rcpSendTalkerAliasRequest = rcpBroadcastStatusConfigurationReply by decide]
+  simpa [sl] using sa
+
+/-! ### status change notification request: the settings dict -/
+
+theorem settingsBytes_length (st : List (Nat × Nat)) : (settingsBytes st).length = 2 * st.length := by
+  induction st with
+  | nil => rfl
+  | cons e tl ih => obtain ⟨t, s⟩ := e; simp [settingsBytes, ih]; omega
+
+theorem settingsBytes_append (a b : List (Nat × Nat)) :
+    settingsBytes (a ++ b) = settingsBytes a ++ settingsBytes b := by
+  induction a with
+  | nil => rfl
+  | cons e tl ih => obtain ⟨t, s⟩ := e; simp [settingsBytes, ih]
+
+theorem dictInsert_new (l : List (Nat × Nat)) (k v : Nat) (h : k ∉ l.map (·.1)) :
+    dictInsert l k v = l ++ [(k, v)] := by
+  unfold dictInsert
+  have : l.any (fun e => e.1 == k) = false := by
+    rw [List.any_eq_false]
+    intro e he heq
+    exact h (by simp only [List.mem_map]; exact ⟨e, he, by simpa using heq⟩)
+  simp [this]
+
+theorem idx_append_at (H T : Bytes) (x : Nat) (i : Nat) (hi : i = H.length) : idx (H ++ x :: T) i = .ok x := by
+  subst hi; simp [idx, pure, Except.pure]
+
+/-- the parser loop, started after `done`, finishes with the whole list -/
+theorem parseSettings_roundtrip (H T : Bytes) (hH : H.length = 6) (todo done : List (Nat × Nat))
+    (hwf : ((done ++ todo).map (·.1)).Nodup)
+    (hmem : ∀ e ∈ done ++ todo, e.1 ∈ scnTargetValues ∧ e.2 ∈ scnSettingValues) :
+    parseSettings (H ++ (settingsBytes (done ++ todo) ++ T)) todo.length (2 * done.length) done
+      = .ok (done ++ todo) := by
+  induction todo generalizing done with
+  | nil => simp [parseSettings, pure, Except.pure]
+  | cons e tl ih =>
+    obtain ⟨t, s⟩ := e
+    have hm := hmem (t, s) (by simp)
+    have f1 := enumFold_mem (m := scnTargetMissing) hm.1
+    have f2 := enumFold_mem (m := scnSettingMissing) hm.2
+    have hnew : t ∉ done.map (·.1) := by
+      intro hc
+      rw [List.map_append, List.nodup_append] at hwf
+      exact hwf.2.2 t hc t (by simp) rfl
+    have hbytes : H ++ (settingsBytes (done ++ (t, s) :: tl) ++ T)
+        = (H ++ settingsBytes done) ++ t :: ((s :: (settingsBytes tl ++ T))) := by
+      simp [settingsBytes_append, settingsBytes]
+    have hbytes2 : H ++ (settingsBytes (done ++ (t, s) :: tl) ++ T)
+        = (H ++ settingsBytes done ++ [t]) ++ s :: (settingsBytes tl ++ T) := by
+      simp [settingsBytes_append, settingsBytes]
+    have i1 : idx (H ++ (settingsBytes (done ++ (t, s) :: tl) ++ T)) (6 + 2 * done.length) = .ok t := by
+      rw [hbytes]; exact idx_append_at _ _ _ _ (by simp [settingsBytes_length, hH])
+    have i2 : idx (H ++ (settingsBytes (done ++ (t, s) :: tl) ++ T)) (7 + 2 * done.length) = .ok s := by
+      rw [hbytes2]; exact idx_append_at _ _ _ _ (by simp [settingsBytes_length, hH]; omega)
+    have hrec := ih (done ++ [(t, s)]) (by simpa using hwf) (by simpa using hmem)
+    simp only [List.append_assoc, List.singleton_append, List.length_append, List.length_cons, List.length_nil] at hrec
+    simp only [List.length_cons, parseSettings, i1, i2, f1, f2, dictInsert_new done t s hnew, bind, Except.bind]
+    have e2 : 2 * done.length + 2 = 2 * (done.length + (0 + 1)) := by omega
+    rw [e2]; exact hrec
+
+theorem rcp_parse_statusNotifyReq (rel : Bool) (st : List (Nat × Nat)) (x y ck : Nat) (h : settingsWF st) :
+    Rcp.fromBytes ((svcRCP ||| (if rel then 0x80 else 0)) :: (rcpStatusChangeNotificationRequest % 256)
+      :: (rcpStatusChangeNotificationRequest / 256 % 256) :: x :: y :: (([st.length] ++ settingsBytes st) ++ [ck, 3]))
+      = .ok ⟨rel, .statusNotifyReq st⟩ := by
+  have e := rcp_opcode_known (v := rcpStatusChangeNotificationRequest) (by decide)
+  have r := rcp_first rel
+  have hp := parseSettings_roundtrip [svcRCP ||| (if rel then 0x80 else 0), rcpStatusChangeNotificationRequest % 256,
+    rcpStatusChangeNotificationRequest / 256 % 256, x, y, st.length] [ck, 3] rfl st [] (by simpa using h.1)
+    (by simpa using h.2.1)
+  simp only [List.nil_append, List.length_nil, Nat.mul_zero, List.cons_append] at hp
+  generalize hD : (svcRCP ||| (if rel then 0x80 else 0)) :: (rcpStatusChangeNotificationRequest % 256)
+      :: (rcpStatusChangeNotificationRequest / 256 % 256) :: x :: y :: (([st.length] ++ settingsBytes st) ++ [ck, 3]) = D
+  have hD' : (svcRCP ||| (if rel then 0x80 else 0)) :: (rcpStatusChangeNotificationRequest % 256)
+      :: (rcpStatusChangeNotificationRequest / 256 % 256) :: x :: y :: st.length :: (settingsBytes st ++ [ck, 3]) = D := by
+    rw [← hD]; simp
+  rw [hD'] at hp
+  have s13 : sl D 1 3 = [rcpStatusChangeNotificationRequest % 256, rcpStatusChangeNotificationRequest / 256 % 256] := by
+    rw [← hD]; simp [sl]
+  have s01 : sl D 0 1 = [svcRCP ||| (if rel then 0x80 else 0)] := by rw [← hD]; simp [sl]
+  have i5 : idx D 5 = .ok st.length := by rw [← hD]; simp [idx, pure, Except.pure]
+  simp only [Rcp.fromBytes, s01, s13, i5, hp, reliableAndServiceB, r, ofLe2', e, bind, Except.bind, pure, Except.pure,
+    ne_eq, not_true_eq_false, if_false, if_true, show ¬ rcpStatusChangeNotificationRequest = rcpUnknownService by decide, show ¬ rcpStatusChangeNotificationRequest = rcpCallRequest by decide, show ¬ rcpStatusChangeNotificationRequest = rcpCallReply by decide, show ¬ rcpStatusChangeNotificationRequest = rcpRepeaterBroadcastTransmitStatus by decide, show ¬ rcpStatusChangeNotificationRequest = rcpBroadcastMessageConfigurationRequest by decide, show ¬ rcpStatusChangeNotificationRequest = rcpBroadcastMessageConfigurationReply by decide, show ¬ rcpStatusChangeNotificationRequest = rcpRadioIDAndRadioIPQueryRequest by decide, show ¬ rcpStatusChangeNotificationRequest = rcpRadioIDAndRadioIPQueryReply by decide, show ¬ rcpStatusChangeNotificationRequest = rcpBroadcastStatusConfigurationRequest by decide, show ¬ rcpStatusChangeNotificationRequest = rcpBroadcastStatusConfigurationReply by decide, show ¬ rcpStatusChangeNotificationRequest = rcpSendTalkerAliasRequest by decide, show ¬ rcpStatusChangeNotificationRequest = rcpSendTalkerAliasReply by decide, show ¬ rcpStatusChangeNotificationRequest = rcpZoneAndChannelOperationRequest by decide, show ¬ rcpStatusChangeNotificationRequest = rcpZoneAndChannelOperationReply by decide]
+
+/-! ### all 17 opcodes -/
+
+/-- a frame with the facts the nesting theorems need, that parses back to `p` -/
+def RcpGoal (p : Rcp) : Prop :=
+  ∃ f, p.frame = .ok f ∧ f.payload.length < 65536 ∧ f.opcode.length = 2 ∧ f.service = svcRCP ∧ f.little = true
+    ∧ f.reliable = p.reliable ∧ Rcp.fromBytes f.asBytes = .ok p
+
+theorem rcp_goal_of (rel : Bool) (b : RcpBody) (P : Bytes) {o1 o2 : Nat} (hP : b.payload = .ok P)
+    (hfit : P.length < 65536) (hop : b.opcodeBytes = [o1, o2])
+    (hparse : ∀ x y ck, Rcp.fromBytes ((svcRCP ||| (if rel then 0x80 else 0)) :: o1 :: o2 :: x :: y :: (P ++ [ck, 3]))
+      = .ok ⟨rel, b⟩) : RcpGoal ⟨rel, b⟩ := by
+  obtain ⟨f, x, y, ck, hf, h1, h2, h3, h4, h5, _, h7⟩ := rcp_bytes rel b P hP hfit hop
+  exact ⟨f, hf, by rw [h1]; exact hfit, by rw [h2]; rfl, h3, h4, h5, by rw [h7]; exact hparse x y ck⟩
+
+theorem rcp_parse_serialise (p : Rcp) (h : p.WF) : RcpGoal p := by
+  obtain ⟨rel, b⟩ := p
+  change b.WF at h
+  cases b with
+  | unknown ro raw =>
+    obtain ⟨h1, h2, h3⟩ := h
+    match ro, h1 with
+    | [o1, o2], _ =>
+    exact rcp_goal_of rel _ raw rfl h3 (by simp [RcpBody.opcodeBytes, sl])
+      (fun x y ck => rcp_parse_unknown rel o1 o2 raw x y ck h2)
+  | callRequest ct t =>
+    obtain ⟨h1, _, h3⟩ := h
+    exact rcp_goal_of rel _ _ rfl (by simp) rfl (fun x y ck => rcp_parse_callRequest rel ct t x y ck h1 h3)
+  | callReply r =>
+    exact rcp_goal_of rel _ _ rfl (by simp) rfl (fun x y ck => rcp_parse_callReply rel r x y ck h)
+  | rptBroadcastTx m st sv ct t s =>
+    obtain ⟨h1, h2, h3, h4, h5, h6⟩ := h
+    exact rcp_goal_of rel _ _ rfl (by simp) rfl
+      (fun x y ck => rcp_parse_rptBroadcastTx rel m st sv ct t s x y ck h1 h2 h3 h4 h5 h6)
+  | bcastMsgCfgReq bt =>
+    exact rcp_goal_of rel _ _ rfl (by simp) rfl (fun x y ck => rcp_parse_bcastMsgCfgReq rel bt x y ck)
+  | bcastMsgCfgReply r =>
+    exact rcp_goal_of rel _ _ rfl (by simp) rfl (fun x y ck => rcp_parse_bcastMsgCfgReply rel r x y ck h)
+  | idIpQueryReq t =>
+    exact rcp_goal_of rel _ _ rfl (by simp) rfl (fun x y ck => rcp_parse_idIpQueryReq rel t x y ck h)
+  | idIpQueryReply r t raw =>
+    obtain ⟨h1, h2, h3⟩ := h
+    match raw, h3 with
+    | [a, b, c, d], _ =>
+    exact rcp_goal_of rel _ _ rfl (by simp) rfl (fun x y ck => rcp_parse_idIpQueryReply rel r t a b c d x y ck h1 h2)
+  | bcastStatusCfgReq raw =>
+    obtain ⟨h1, h2⟩ := h
+    match raw, h1 with
+    | n :: rest, h1 =>
+    exact rcp_goal_of rel _ _ rfl h2 rfl (fun x y ck => rcp_parse_bcastStatusCfgReq rel n rest x y ck h1)
+  | bcastStatusCfgReply r =>
+    exact rcp_goal_of rel _ _ rfl (by simp) rfl (fun x y ck => rcp_parse_bcastStatusCfgReply rel r x y ck h)
+  | talkerAliasReq ct s t f a =>
+    obtain ⟨h1, _, h3, h4, h5, h6⟩ := h
+    exact rcp_goal_of rel _ _ rfl (by simp; omega) rfl
+      (fun x y ck => rcp_parse_talkerAliasReq rel ct s t f a x y ck h1 h3 h4 h5)
+  | talkerAliasReply r ct s t =>
+    obtain ⟨h1, h2, _, h4, h5⟩ := h
+    exact rcp_goal_of rel _ _ rfl (by simp) rfl (fun x y ck => rcp_parse_talkerAliasReply rel r ct s t x y ck h1 h2 h4 h5)
+  | zoneChanReq raw =>
+    match raw, h with
+    | [a, b, c, d, e], _ =>
+    exact rcp_goal_of rel _ _ rfl (by simp) rfl (fun x y ck => rcp_parse_zoneChanReq rel a b c d e x y ck)
+  | zoneChanReply raw =>
+    exact rcp_goal_of rel _ _ rfl h rfl (fun x y ck => rcp_parse_zoneChanReply rel raw x y ck)
+  | statusNotifyReq st =>
+    exact rcp_goal_of rel _ _ rfl (by have := h.2.2; simp [settingsBytes_length]; omega) rfl
+      (fun x y ck => rcp_parse_statusNotifyReq rel st x y ck h)
+  | statusNotifyReply r =>
+    exact rcp_goal_of rel _ _ rfl (by simp) rfl (fun x y ck => rcp_parse_statusNotifyReply rel r x y ck h)
+  | radioStatusReport t v =>
+    obtain ⟨h1, h2⟩ := h
+    exact rcp_goal_of rel _ _ rfl (by simp) rfl (fun x y ck => rcp_parse_radioStatusReport rel t v x y ck h1 h2)
+
 end Dmr.Hytera
